@@ -7,6 +7,8 @@ performed note.
 -/
 import PartituraModel.Model.MatchLine
 import PartituraModel.Gen.MatchTemplates
+import PartituraModel.Proofs.C07Frac
+import PartituraModel.Props.C07Codecs
 
 namespace C07
 open Model Model.Template Model.MatchCodec Model.MatchLine Gen
@@ -87,6 +89,37 @@ example : toV1 [] "info" (0, 5, 0) [.str "subtitle".toList, .strs ["a".toList, "
     toV1 [] "info" (0, 5, 0) [.str "midiFilename".toList, .str "x.mid".toList]
       = some ("info", [.str "midiFileName".toList, .str "x.mid".toList]) := by
   refine ⟨?_, ?_, ?_⟩ <;> decide +kernel
+
+/-- **tempo indication** (pre-1.0 info line: a list of words; 1.0.0 score property: one tempo text): the words
+    are kept, in order, joined by single blanks - provided that text is a tempo text the 1.0.0 interpreter reads
+    back as itself (no blank at either end, not empty, no comma, no `[` in front); the result is then an
+    admissible value of the 1.0.0 line (`Adm`, so `line_roundtrip_adm` applies to the converted line) -/
+theorem toV1_tempo_words (ts : List Template) (v : Nat × Nat × Nat) (l : List Str)
+    (hs : strip (joinWith [' '] l) = joinWith [' '] l) (hne : joinWith [' '] l ≠ [])
+    (hc : ∀ c ∈ joinWith [' '] l, c ≠ ',') (hb : (joinWith [' '] l).head? ≠ some '[') :
+    toV1 ts "info" v [.str "tempoIndication".toList, .strs l]
+      = some ("scoreprop", [.str "tempoIndication".toList, .tempo (joinWith [' '] l), .int 1, .int 1,
+                            .frac zeroFrac, .dec 0]) ∧
+    Adm .tempo .tempo (.tempo (joinWith [' '] l)) := by
+  have key : toV1 ts "info" v [.str "tempoIndication".toList, .strs l]
+      = some ("scoreprop", [.str "tempoIndication".toList,
+          (match decTempo (joinWith [' '] l) with | some s => Val.tempo s | none => Val.none),
+          .int 1, .int 1, .frac zeroFrac, .dec 0]) := rfl
+  rw [key, C07Codec.decTempo_id _ hs hne hc hb]
+  exact ⟨rfl, hs, hne, hc, hb⟩
+
+/-- **subtitle** (pre-1.0: a list of words; 1.0.0: one string): an empty list becomes the empty string, any
+    other list the text Python prints for it (`['a', 'b']`: every word, in order, between apostrophes) -/
+theorem toV1_subtitle_words (ts : List Template) (v : Nat × Nat × Nat) (w : Str) (l : List Str) :
+    toV1 ts "info" v [.str "subtitle".toList, .strs []] = some ("info", [.str "subtitle".toList, .str []]) ∧
+    toV1 ts "info" v [.str "subtitle".toList, .strs (w :: l)]
+      = some ("info", [.str "subtitle".toList,
+          .str ('[' :: (joinWith [',', ' '] ((w :: l).map fun s => '\'' :: (s ++ ['\'']))) ++ [']'])]) := by
+  constructor <;> rfl
+
+example : strip (joinWith [' '] ["lento".toList, "ma".toList]) = joinWith [' '] ["lento".toList, "ma".toList] ∧
+    joinWith [' '] ["lento".toList, "ma".toList] = "lento ma".toList := by
+  constructor <;> decide +kernel
 
 /-- insertions and their variants, trills: the anchor is kept and the performed note is converted by `noteToV1`
     (id, velocity and tick times kept, MIDI pitch = the spelled pitch: `noteToV1_content`) -/
